@@ -80,6 +80,8 @@ STEMS = ["x", "my file", "d-1_b", "d.v2"]
 SOURCE = Path(__file__)
 LADDER = [7, 8, 9, 15, 16, 17, 31, 32, 33, 63, 64, 65, 100, 127, 128, 129, 255, 256, 257, 500, 501,
           511, 512, 513, 1000, 1001, 1023, 1024, 1025]
+# dense range: every size (a defect may sit at one particular size, e.g. exactly 73 members)
+LADDER = sorted(set(LADDER) | set(range(7, 131)))
 LADDER_X = [2047, 2048, 2049, 4095, 4096, 4097, 10001]
 LADDER_POW = [63, 64, 65, 255, 256, 257, 1023, 1024, 1025]
 INDEX_KINDS = ["shifted", "datetime", "labels", "multi"]
